@@ -300,9 +300,17 @@ pub fn oracle_tree<const N: usize>(c: &TreeCase) -> Viol {
                     if t.root_hash_cached() != Some(&h) {
                         out.push(("C02", at("root_hash_cached() != Some(value just returned)")));
                     }
-                    if t.serialise_page_ranges().is_none() {
-                        out.push(("C02", at("serialise_page_ranges() is None right after root_hash()")));
-                        out.push(("C15", at("serialisation after a hash request did not succeed")));
+                    match catch_unwind(AssertUnwindSafe(|| t.serialise_page_ranges().is_none())) {
+                        Ok(false) => {}
+                        Ok(true) => {
+                            out.push(("C02", at("serialise_page_ranges() is None right after root_hash()")));
+                            out.push(("C15", at("serialisation after a hash request did not succeed")));
+                        }
+                        Err(_) => {
+                            out.push(("C02", at("serialise_page_ranges() panicked right after root_hash(): the cached root hash was exposed although pages are not hashed")));
+                            out.push(("C15", at("serialisation after a hash request panicked")));
+                            out.push(("C08", at("a tree that was just hashed cannot be serialised: a diff against a replica with identical content panics instead of returning no ranges")));
+                        }
                     }
                 }
                 Op::Upsert(k, v) => {
